@@ -188,3 +188,20 @@ func (s *session) wrapScript(b *bigData, variant int) {
 		do("at", "srv-cl", "plain")
 	}
 }
+
+// releaseBig empties the store after all observations of a boundary session: the blob hub registry
+// of the process keeps every destination (and with it every memory store and cache) reachable, and
+// the blobs of these sessions are 16 MiB each.
+func (s *session) releaseBig() {
+	var refs []blob.Ref
+	for ref := range s.stored {
+		refs = append(refs, ref)
+	}
+	if len(refs) == 0 || s.b == nil || s.b.S == nil {
+		return
+	}
+	func() {
+		defer func() { recover() }()
+		s.b.S.RemoveBlobs(ctxbg, refs)
+	}()
+}
